@@ -62,9 +62,22 @@ def handle (line : String) : String :=
           match fixed with
           | none => "bad-op"
           | some fixedH =>
-            if cmd = "cts" then showRes (computeTimeStep Float.sqrt arrs cfl fixedH)
-            else if cmd = "sol" then showRes (solverTimestep Float.sqrt arrs cfl und fixedH)
-            else "bad-op"
+            -- flag=- : first call (flag computed); flag=0/1 : the cached `_has_dt_adapt`
+            let flag : Option (Option Bool) := match lookup kv "flag" with
+              | none => some none
+              | some "-" => some none
+              | some "0" => some (some false)
+              | some "1" => some (some true)
+              | _ => none
+            match flag with
+            | none => "bad-op"
+            | some fl =>
+              let r : Res Float := match fl with
+                | none => computeTimeStep Float.sqrt arrs cfl fixedH
+                | some b => computeTimeStepCached b Float.sqrt arrs cfl fixedH
+              if cmd = "cts" then showRes r
+              else if cmd = "sol" then showRes (solverTimestepOf r und)
+              else "bad-op"
         | _, _, _ => "bad-op"
       | _ => "bad-op"
 
